@@ -36,7 +36,7 @@ import (
 
 var res *report.Result
 
-var kinds = []string{"ok", "failover", "midreset", "b5xx", "abort", "ok204"}
+var kinds = []string{"ok", "failover", "midreset", "b5xx", "abort", "ok204", "abortmid"}
 
 const okBody = `{"id":"x","object":"chat.completion","model":"m1","choices":[{"index":0,"message":{"role":"assistant","content":"hello"},"finish_reason":"stop"}],"usage":{"prompt_tokens":1,"completion_tokens":1,"total_tokens":2}}`
 
@@ -130,6 +130,19 @@ func (w *world) plan(name string, q *stack.Request) stack.Behaviour {
 	case "ok204":
 		// a success without a body (a preflight or a DELETE answered 204 No Content)
 		return stack.Behaviour{Kind: "respond", Status: 204, Framing: "close", Body: nil, Cut: -1, After: "complete", Headers: [][2]string{{"X-Empty", "1"}}}
+	case "abortmid":
+		// the client goes away after the first part of the answer has reached it; the backend then waits for olla to drop
+		// the upstream connection
+		return stack.Behaviour{Kind: "respond", Status: 200, Framing: "chunked", Steps: [][]byte{[]byte(okBody[:60]), []byte(okBody[60:])}, Cut: -1, After: "stall", Headers: [][2]string{{"Content-Type", "application/json"}},
+			Gate: func(q *stack.Request, i int) bool {
+				if i == 1 {
+					if abort != nil {
+						abort()
+					}
+					return false
+				}
+				return true
+			}, OnDone: done}
 	case "abort":
 		// the client goes away while the backend has not answered yet; the backend then waits for olla to
 		// drop the upstream connection (cancellation), so the outcome does not depend on a write race
@@ -216,7 +229,7 @@ func (w *world) run(ks []string, prefix []int, checkGauges bool) (*gate.Controll
 		body := []byte(`{"model":"m1","messages":[{"role":"user","content":"hi"}]}`)
 		req := &stack.Req{Method: "POST", Target: "/olla/proxy/v1/chat/completions", Body: body, Timeout: 10 * time.Second,
 			Headers: [][2]string{{"Content-Type", "application/json"}, {"X-Verif-Thread", fmt.Sprint(t)}, {"X-Verif-Kind", ks[t]}}}
-		if ks[t] == "abort" {
+		if ks[t] == "abort" || ks[t] == "abortmid" {
 			// register the hooks before the request is on the wire: the backend may see it at once
 			ready := make(chan struct{})
 			var s *stack.Stream
@@ -225,6 +238,9 @@ func (w *world) run(ks []string, prefix []int, checkGauges bool) (*gate.Controll
 			w.aborts[t] = func() {
 				<-ready
 				if s != nil {
+					if ks[t] == "abortmid" {
+						s.WaitFor("chat.completion", 5*time.Second) // the first part has arrived
+					}
 					s.Abort()
 				}
 			}
@@ -256,7 +272,8 @@ func (w *world) run(ks []string, prefix []int, checkGauges bool) (*gate.Controll
 					want[w.b.URL()+"/"]++
 				}
 			}
-			ok := stack.Eventually(time.Second, func() bool {
+			// (an attempt whose client went away in mid-stream stays open inside sherpa for its one-second grace period)
+			ok := stack.Eventually(3*time.Second, func() bool {
 				got := w.col.GetConnectionStats()
 				for u, n := range want {
 					if got[u] != n {
@@ -293,7 +310,7 @@ func (w *world) run(ks []string, prefix []int, checkGauges bool) (*gate.Controll
 	d := delta(before, w.snapshot())
 	hasAbort := false
 	for _, k := range ks {
-		if k == "abort" {
+		if k == "abort" || k == "abortmid" {
 			hasAbort = true
 		}
 	}
@@ -359,7 +376,7 @@ func p1(w *world) map[string]vec {
 		}
 		// learn per-class delta: a single request of kind "failover" makes two attempts (connfail on A, ok on B)
 		switch k {
-		case "ok", "midreset", "b5xx", "abort", "ok204":
+		case "ok", "midreset", "b5xx", "abort", "ok204", "abortmid":
 			learnt[k] = d
 		case "failover":
 			if okv, have := learnt["ok"]; have && len(att) == 2 {
